@@ -95,7 +95,8 @@ func propC02(a *Analysis, r *Registry) {
 				if ret == nil {
 					anchorFail("no summation return")
 				}
-				rv := fc.Sub(fc.Val(ret.Results[0]))
+				// (one return of the flipped-or-plain sum, or one return per case: the gated value)
+				rv := fc.Sub(fc.RetVal(0))
 				phis := fc.loopPhis(rv)
 				var p *RF
 				for _, ph := range phis {
@@ -116,7 +117,16 @@ func propC02(a *Analysis, r *Registry) {
 				env.Set("e", S.atomRF(el[0].ID), nil)
 				b.EqRF(rB, name+"/untied/sum-init", b.pos(fn), pi, S.Int(0), "sum starts at 0")
 				b.EqUnder(rB, name+"/untied/sum-step", b.pos(fn), fc, pn, env, "p+e")
-				b.EqUnder(rB, name+"/untied/summed-range", b.pos(fn), fc, el[0].Args[0], env, "slice(d.p(Uj), _, Uj+1, _)")
+				// the elements summed are d.p(Uj)[0..Uj]: a scan of the prefix slice, or an index
+				// loop over 0..Uj on the whole result
+				base, idx := el[0].Args[0], el[0].Args[1]
+				if sl := base.SingleAtom(); sl != nil && sl.Name == "slice" {
+					b.EqUnder(rB, name+"/untied/summed-range", b.pos(fn), fc, base, env, "slice(d.p(Uj), _, Uj+1, _)")
+					b.FullScan("C-scan coverage", name+"/untied/summed-all", b.pos(fn), fc, idx, S.MakeFn("len", base))
+				} else {
+					b.EqUnder(rB, name+"/untied/summed-range", b.pos(fn), fc, base, env, "d.p(Uj)")
+					b.FullScan("C-scan coverage", name+"/untied/summed-all", b.pos(fn), fc, idx, fc.Sub(env.MustParse("Uj+1")))
+				}
 			}, func() {
 				// a summing helper S(k) = sum of d.p(k)[0..k] called at the flipped or the plain point:
 				// result = flip ? 1 - S(N1*N2-Ui-1) : S(Ui)
